@@ -269,6 +269,28 @@ def generate() -> Tuple[str, Dict[str, Any], List[str]]:
             items[name] = PINNED[name]
             fallbacks.append('%s: %s (pinned expression used)' % (name, e))
 
+    # behavioural fact probed on the live code (robust against refactoring): does the exporter refuse a comment
+    # containing a newline in the two line-oriented public formats (keys and certificates)?
+    def refuses_newline() -> bool:
+        import asyncssh
+        k = asyncssh.generate_private_key('ssh-ed25519')
+        cert = k.generate_user_certificate(k, 'probe')
+        outcomes = []
+        for obj, exp in ((k, k.export_public_key), (cert, cert.export_certificate)):
+            obj.set_comment(b'a\nb')
+            for fmt in ('openssh', 'rfc4716'):
+                try:
+                    exp(fmt)
+                    outcomes.append(False)
+                except pk.KeyExportError:
+                    outcomes.append(True)
+        return all(outcomes)
+    try:
+        refuses = refuses_newline()
+    except Exception as e:
+        refuses = False
+        fallbacks.append('newline probe: %s: %s' % (type(e).__name__, e))
+
     magic = bytes(pk._OPENSSH_KEY_V1)
     pub_algs = sorted(bytes(a) for a in pk._public_key_alg_map)
     cert_algs = sorted(bytes(a) for a in pk._certificate_alg_map)
@@ -332,6 +354,10 @@ def padRejectLen : Nat := {chk_max}
 def padCheckFirst : Nat := {chk_first}
 def padCheckStop (n : Int) : Int := {chk_stop}
 
+/-- probed on the live code: `export_public_key` / `export_certificate` in the `openssh` and `rfc4716` formats
+    raise `KeyExportError` for a comment containing a newline -/
+def exportRefusesNewlineComment : Bool := {'true' if refuses else 'false'}
+
 end AsyncsshModel.Gen.C15
 '''
     info = {'tables': {'public_key_algs': len(pub_algs), 'certificate_algs': len(cert_algs),
@@ -339,6 +365,7 @@ end AsyncsshModel.Gen.C15
             'expressions': {'mpint_len': items['mpint'], 'der_len': [der_limit, der_size, der_flag],
                             'openssh_pad_export': [pad_first, pad_stop, none_bs],
                             'openssh_pad_check': [chk_max, chk_first, chk_stop]},
+            'export_refuses_newline_comment': refuses,
             'fallbacks': fallbacks}
     return src, info, fallbacks
 
